@@ -1102,8 +1102,11 @@ theorem watch_runFrame' (p : Prog) (hh : Hist) (s : St) (f : Frame) (hc : WCore 
     · exact simple _ [] (wstep_refl hc) rfl rfl (frames_plain_ok _)
     · split
       · rename_i e ex work _
-        exact simple _ [.despawnWork work] ((wstep_despawn1 hc e).right (by csame)) (by simp [St.push]) (by simp [St.push])
-          (by intro g hg; simp at hg; subst hg; trivial)
+        split
+        · exact simple _ [.despawnWork work] ((wstep_despawn1 hc e).right (by csame)) (by simp [St.push]) (by simp [St.push])
+            (by intro g hg; simp at hg; subst hg; trivial)
+        · exact simple _ [.flush, .despawnWork _] (WStep.of_same (by csame) hc) rfl rfl
+            (by intro g hg; simp at hg; rcases hg with rfl | rfl <;> trivial)
       · split
         · exact simple _ [.despawnWork _] (WStep.of_same (by csame) hc) rfl rfl (by intro g hg; simp at hg; subst hg; trivial)
         · exact simple _ [.despawnWork _] (WStep.of_same (by csame) hc) rfl rfl (by intro g hg; simp at hg; subst hg; trivial)
